@@ -94,11 +94,13 @@ def make_payload(spec):
 class Stack:
     """One real ECU attached to the simulated bus."""
 
-    def __init__(self, world, name, dll="j1939-21", max_cmdt=1, rts_cts_dt=None, bam_dt=None):
+    def __init__(self, world, name, dll="j1939-21", max_cmdt=1, rts_cts_dt=None, bam_dt=None, tx_time=0.0):
         j = load()
         self.world = world
         self.name = name
         self.dll = dll
+        self.tx_time = tx_time        # virtual time a send call made by a stack THREAD takes (driver write); 0 = instantaneous
+        self.rx_hooks = []            # callables(listener name) run inside subscriber callbacks (application reacting to a message)
         self.deliveries = []      # (t, listener, prio, pgn, sa, bytes)
         self.requests = []        # (t, ca_name, src, dest, pgn)
         self.swallowed = []       # exceptions contained by MessageListener (via log capture)
@@ -123,6 +125,10 @@ class Stack:
         f = simbus.mkframe(can_id, list(data), ext=extended_id, fd=fd_format)
         self.sent.append((self.world.sim.now, f))
         self.world.bus.transmit(self, f)
+        if self.tx_time and self.world.sim.current is not None:
+            # the frame is on the bus; the calling thread stays inside the driver call a little longer, so a reply can be
+            # handled by the receive path before the send call has returned (threaded counterpart of latency 0)
+            sk.FAKE_TIME.sleep(self.tx_time)
 
     def rx(self, frame):
         msg = _can.Message(arbitration_id=frame.can_id, is_extended_id=frame.ext, data=frame.data,
@@ -171,6 +177,10 @@ class Stack:
         def cb(priority, pgn, sa, timestamp, data):
             self.deliveries.append((self.world.sim.now, lname, priority, pgn, sa,
                                     bytes(data) if data is not None else None))
+            if self.rx_hooks:
+                hooks, self.rx_hooks = self.rx_hooks, []
+                for h in hooks:
+                    h(lname)
         return cb
 
     # observation ---------------------------------------------------------------
